@@ -153,6 +153,7 @@ func runC13(c *Ctx) {
 	c.c13Drops()
 	c.c13Streams()
 	c.c13Formats()
+	c.c13MemberLists()
 }
 
 // c13Formats: "delivered intact". A message that travels through the format-string position of a printf-like
@@ -645,4 +646,51 @@ func (c *Ctx) c13Streams() {
 		})
 		c.check(good, "L6", fname(f), c.pos(f.Pos()), "forwards to "+s.callee, "does not forward its input to the underlying "+s.callee)
 	}
+}
+
+// c13MemberLists (L8): "composite loggers deliver every message to every member". The member list belongs to the
+// composite: it is only ever changed under the composite's lock (L1). A constructor or setter that stores the
+// caller's slice itself shares the backing array with the caller, whose later append overwrites a member behind
+// the lock's back (and races with Log). What is stored must be a fresh slice.
+func (c *Ctx) c13MemberLists() {
+	c.rule("L8", "a slice stored into a field of a logger structure is never the caller's own slice (parameter or variadic argument): members are copied", 1)
+	n := 0
+	for _, rel := range c13Pkgs {
+		for _, f := range c.srcFuncs(rel) {
+			allInstrs(f, func(in ssa.Instruction) {
+				st, ok := in.(*ssa.Store)
+				if !ok {
+					return
+				}
+				fa, ok := st.Addr.(*ssa.FieldAddr)
+				if !ok {
+					return
+				}
+				if _, isSlice := st.Val.Type().Underlying().(*types.Slice); !isSlice {
+					return
+				}
+				so := structOf(fa.X.Type())
+				if so == nil {
+					return
+				}
+				n++
+				key := fname(outermost(f)) + "/" + so.Field(fa.Field).Name()
+				v := st.Val
+				for {
+					if sl, ok := v.(*ssa.Slice); ok {
+						v = sl.X
+						continue
+					}
+					break
+				}
+				v = resolveValue(v)
+				if p, isParam := v.(*ssa.Parameter); isParam {
+					c.violate("L8", key, c.ipos(st), "the slice stored in field "+so.Field(fa.Field).Name()+" is the caller's own ("+p.Name()+"): it shares its backing array with the caller, whose next append replaces a member of the composite without its lock — that member receives nothing any more, another logger receives its messages")
+					return
+				}
+				c.ok("L8", key, c.ipos(st), "a slice of the structure's own")
+			})
+		}
+	}
+	c.Extra["slice_field_stores"] = n
 }
